@@ -24,6 +24,7 @@ type HarnessResult struct {
 	Failures      []core.Failure      `json:"failures"`
 	Inconclusive  []core.Inconclusive `json:"inconclusive"`
 	Reached       map[string]int      `json:"reached"`
+	OblIDs        map[string]*core.OblStat `json:"obl_ids"`
 	Encoded       []string            `json:"encoded"`
 	Stubs         []string            `json:"stubs"`
 	Samples       []string            `json:"samples"`
@@ -142,6 +143,7 @@ func cmdG(args []string) {
 		solver.Close()
 		r.Paths, r.PathsEnded, r.Obligations, r.Discharged = m.Paths, m.PathsEnded, m.Obligations, m.Discharged
 		r.Failures, r.Inconclusive, r.Reached, r.Samples = m.Failures, m.Inconclusives, m.Reached, m.Samples
+		r.OblIDs = m.OblIDs
 		for k := range x.Encoded {
 			r.Encoded = append(r.Encoded, k)
 		}
